@@ -593,6 +593,40 @@ func stringOption(c *explore.Ctx) {
 }
 
 // Spec returns the C02 check.
+// ---- interfaces that hold a pointer to themselves: encoding/json decodes into the interface as if it was empty
+
+type selfField struct {
+	A int
+	F any
+}
+
+var selfShapes = []struct {
+	name string
+	mk   func() reflect.Value // pointer to the target
+}{
+	{"any holding a pointer to itself", func() reflect.Value { x := new(any); *x = x; return reflect.ValueOf(x) }},
+	{"named empty interface holding a pointer to itself", func() reflect.Value { x := new(jgen.NamedAny); *x = x; return reflect.ValueOf(x) }},
+	{"struct field of type any holding a pointer to itself", func() reflect.Value { x := new(selfField); x.F = &x.F; return reflect.ValueOf(x) }},
+	{"slice element of type any holding a pointer to itself", func() reflect.Value { x := &[]any{nil, 2}; (*x)[0] = &(*x)[0]; return reflect.ValueOf(x) }},
+	{"array element of type any holding a pointer to itself", func() reflect.Value { x := new([2]any); x[1] = &x[1]; return reflect.ValueOf(x) }},
+	{"any holding a pointer to another any (no cycle)", func() reflect.Value { y := new(any); *y = 5; x := new(any); *x = y; return reflect.ValueOf(x) }},
+}
+
+var selfDocs = []string{`1`, `"s"`, `null`, `true`, `{"k":[1]}`, `[1,"a"]`, `[null]`, `{"F":1}`, `{"F":{"F":[2]},"A":3}`, `{"F":null}`, `[]`, `{}`, `[[3],4]`, `tru`, `{"F":`, ``, ` 7 `}
+
+func selfReference(c *explore.Ctx) {
+	sh := selfShapes[c.Choose(len(selfShapes))]
+	doc := []byte(selfDocs[c.Choose(len(selfDocs))])
+	e := entries[c.Choose(len(entries))]
+	segT, stdT := sh.mk(), sh.mk()
+	ok := step(c, e, segT.Type().Elem(), doc, segT, stdT, "self-reference", sh.name)
+	c.NontrivialStr("self", sh.name, string(doc), e.name)
+	c.Outcome(fmt.Sprintf("self ok=%v", ok))
+	if c.WantSample() || c.Failed() {
+		c.Case(map[string]any{"target": sh.name, "document": string(doc), "entry": e.name})
+	}
+}
+
 func Spec() *explore.Spec {
 	return &explore.Spec{
 		ID: "C02",
@@ -608,6 +642,7 @@ func Spec() *explore.Spec {
 			{Name: "token-seqs", ShardDepth: 2, Body: tokenSeqs, Doc: "all token sequences up to 4 (5 thorough) over 18 tokens x 25 target types"},
 			{Name: "histories", ShardDepth: 2, Body: histories, Doc: "every sequence of up to 3 documents (10 documents: arrays that grow, shrink to [], null, objects) decoded one after the other into the same variable of 12 slice / array / map / pointer / interface shapes"},
 			{Name: "string-option", ShardDepth: 2, Body: stringOption, Doc: "struct fields tagged ',string' of 16 kinds (floats, signed/unsigned integers, bool, string, pointers to them, Number, any) x every content string built from <= 3 (thorough 4) of 20 tokens (digits, signs, dot, exponent and hex letters, underscore, white space, true/false/null, escaped quotes, Inf, NaN, escapes) - quoted and bare - x {zero, pre-set} target"},
+			{Name: "self-reference", ShardDepth: 2, FatalPerCase: true, Body: selfReference, Doc: "targets whose interface value (any, named empty interface, struct field, slice / array element) holds a pointer to itself, plus a non-cyclic control, x 17 documents x 6 entry points: same result as encoding/json, which decodes into such an interface as if it was empty (a decoder that follows the pointer never returns)"},
 			{Name: "unescape", Body: unescape, Doc: "Unescape / AppendUnescape on every string literal of the table"},
 		},
 		Rule: "every (type, document, prior state, entry point) within the deviation bound, plus complete mutation sets and token sequences; distinct non-trivial = distinct tuples / blocks",
